@@ -92,12 +92,26 @@ def gen(r):
                     per_master.append({"x": j(base["x"]), "y": j(base["y"]), "w": abs(j(base["w"])) + 0.05, "h": abs(j(base["h"])) + 0.05, "pts": [(j(x), j(y)) for x, y in base["pts"]], "g": [j(v) for v in base["g"][:4]] + [abs(j(base["g"][4])) + 0.05]})
             shapes.append({"kind": kind, "fill": fill, "col": col, "col2": col2, "op": op, "params": per_master})
         glyphs.append(shapes)
-    return {"positions": positions, "axes": axes, "locations": locations, "same_leaf_dirs": same_leaf_dirs, "names": names, "edit_master": edit_master, "default": default, "vb": vb, "upem": upem, "asc": asc, "desc": desc, "reuse": reuse, "glyphs": glyphs}
+    if r.random() < 0.3:
+        # one glyph is full-bleed in a non-default master and smaller in the default one
+        dflt_i = next(i for i, l in enumerate(locations) if l == default)
+        other = r.choice([i for i in range(nm) if i != dflt_i])
+        pm = []
+        for m in range(nm):
+            if m == other:
+                pm.append({"x": 0.0, "y": 0.0, "w": 1.0, "h": 1.0, "pts": [], "g": [0.1, 0.1, 0.9, 0.9, 0.4]})
+            else:
+                pm.append({"x": 0.25 + 0.02 * m, "y": 0.2, "w": 0.5, "h": 0.55, "pts": [], "g": [0.1, 0.1, 0.9, 0.9, 0.4]})
+        glyphs[r.randrange(len(glyphs))].insert(0, {"kind": "rect", "fill": "solid", "col": "#%06x" % r.randint(0, 0xFFFFFF), "col2": "#000000", "op": 1.0, "params": pm})
+    common_glyph = r.randrange(nglyphs) if (nglyphs >= 2 and r.random() < 0.3) else None
+    return {"common_glyph": common_glyph, "positions": positions, "axes": axes, "locations": locations, "same_leaf_dirs": same_leaf_dirs, "names": names, "edit_master": edit_master, "default": default, "vb": vb, "upem": upem, "asc": asc, "desc": desc, "reuse": reuse, "glyphs": glyphs}
 
 
 def svg_for(spec, g, m):
     vb = spec["vb"]
     defs, body = "", ""
+    if g == spec.get("common_glyph"):
+        m = 0  # this glyph's artwork is shared by all masters (it lives in a directory every master lists)
     for i, sh in enumerate(spec["glyphs"][g]):
         p = sh["params"][m]
         if sh["fill"] == "solid":
@@ -132,7 +146,7 @@ def run_case(case):
     inproc.init()
     r = common.rng(ID, case["seed"], case["i"])
     spec = gen(r)
-    res = {"counters": {}, "maxes": {}, "violations": [], "tags": ["masters=%d" % len(spec["positions"]), "axes=%d" % len(spec["axes"]), "reuse" if spec["reuse"] else "noreuse", "same-leaf-dirs" if spec["same_leaf_dirs"] else "distinct-dirs"]}
+    res = {"counters": {}, "maxes": {}, "violations": [], "tags": (["shared-common-dir"] if spec.get("common_glyph") is not None else []) + ["masters=%d" % len(spec["positions"]), "axes=%d" % len(spec["axes"]), "reuse" if spec["reuse"] else "noreuse", "same-leaf-dirs" if spec["same_leaf_dirs"] else "distinct-dirs"]}
     if len(spec["axes"]) == 2 and [t for t, _ in spec["axes"]] != sorted(t for t, _ in spec["axes"]):
         res["tags"].append("axes-declared-out-of-tag-order")
     c = res["counters"]
@@ -153,8 +167,12 @@ def run_case(case):
             d.mkdir(parents=True)
             mdirs.append(d)
             for g, n in enumerate(names):
-                (d / n).write_text(svg_for(spec, g, m))
-            cfg["master"][mname] = {"style_name": "M%d" % m, "position": dict(loc), "srcs": [f"{sub}/*.svg"]}
+                if g == spec.get("common_glyph"):
+                    (root / "common").mkdir(exist_ok=True)
+                    (root / "common" / n).write_text(svg_for(spec, g, 0))
+                else:
+                    (d / n).write_text(svg_for(spec, g, m))
+            cfg["master"][mname] = {"style_name": "M%d" % m, "position": dict(loc), "srcs": [f"{sub}/*.svg"] + (["common/*.svg"] if spec.get("common_glyph") is not None else [])}
         (root / "vf.toml").write_text(toml.dumps(cfg))
         rcode, out = cli.nanoemoji(["--build_dir", str(root / "build"), "vf.toml"], root, cli.env_for(events=root / "ev.jsonl"), timeout=600)
         c["vf_builds"] = 1
@@ -230,7 +248,15 @@ def run_case(case):
                 # clip box in force at the master
                 bv, bs = ev.clip_box(nv[0]), evs.clip_box(ns[0])
                 if (bv is None) != (bs is None):
-                    res["violations"].append(dict(ctx, what=f"clip box presence differs at master {pos}: VF {bv}, static {bs}"))
+                    res["violations"].append(dict(ctx, what=f"clip box presence differs at master {pos}{label}: VF {bv}, static {bs}"))
+                if bv is not None:
+                    for l in lv:
+                        bb = geom.bbox(l.contours)
+                        e = (0.5 + 0.001 * spec["upem"]) * max(1.0, l.sigma) + 1.5 + l.err
+                        outby = max(bv[0] - bb[0], bv[1] - bb[1], bb[2] - bv[2], bb[3] - bv[3])
+                        c["master_boxes_checked"] = c.get("master_boxes_checked", 0) + 1
+                        if outby > e:
+                            res["violations"].append(dict(ctx, what=f"at master {pos}{label} the clip box in force {tuple(round(v, 1) for v in bv)} cuts the glyph {tuple(round(v, 1) for v in bb)} by {outby:.2f}"))
                 if pos == spec["default"]:
                     c["default_location_checked"] = 1
 
@@ -263,7 +289,10 @@ def run_case(case):
                         outby = max(box[0] - bb[0], box[1] - bb[1], bb[2] - box[2], bb[3] - box[3])
                         res["maxes"]["max_interior_protrusion"] = max(res["maxes"].get("max_interior_protrusion", -1e9), outby)
                         if outby > e:
-                            res["violations"].append(dict(ctx, what=f"at {pos} the clip box in force {tuple(round(v, 1) for v in box)} cuts interpolated geometry {tuple(round(v, 1) for v in bb)} by {outby:.2f}"))
+                            # known finding F22: a layer that re-uses another outline through a *variable* transform is
+                            # (linear transform) x (linear outline) = quadratic in the axis, the variable clip box is linear
+                            mech = "F22-vf-reused-layer-geometry-is-quadratic-clipbox-linear" if (l.transformed and spec["reuse"]) else None
+                            res["violations"].append(dict(ctx, mechanism=mech, layer_ref=l.ref, what=f"at {pos} the clip box in force {tuple(round(v, 1) for v in box)} cuts interpolated geometry {tuple(round(v, 1) for v in bb)} by {outby:.2f}"))
         # a later run in the same build directory, after one non-default master's artwork was edited: the font must
         # reproduce the *edited* master at its location
         if spec["edit_master"] and not res["violations"]:
@@ -272,14 +301,17 @@ def run_case(case):
             import copy
 
             spec2 = copy.deepcopy(spec)
-            for gl in spec2["glyphs"]:
+            for gi_, gl in enumerate(spec2["glyphs"]):
+                if gi_ == spec.get("common_glyph"):
+                    continue  # the shared glyph is not part of this master's own directory
                 for sh in gl:
                     pm = sh["params"][m]
                     pm["x"], pm["y"] = pm["x"] + 0.04, max(0.02, pm["y"] - 0.03)
                     pm["pts"] = [(x + 0.04, y - 0.03) for x, y in pm["pts"]]
             time.sleep(0.02)
             for g, n in enumerate(names):
-                (mdirs[m] / n).write_text(svg_for(spec2, g, m))
+                if g != spec.get("common_glyph"):
+                    (mdirs[m] / n).write_text(svg_for(spec2, g, m))
             rcode2, out2 = cli.nanoemoji(["--build_dir", str(root / "build"), "vf.toml"], root, cli.env_for(events=root / "ev2.jsonl"), timeout=600)
             c["reruns_after_master_edit"] = 1
             if rcode2 != 0:
